@@ -26,6 +26,27 @@ def jobs(prop, tier, seed=0):
 
 
 
+def v2_jobs(prop, tier):
+    """real core.read_col -> real core.read_data_page_v2 for a flat column (vf/pyshim/h_v2.py)"""
+    t = 200 if tier == "quick" else 800
+    cfgs = [("plain", "float", "int64", 1, "2,2"), ("plain", "float", "double", 1, "2,2"),
+            ("plain", "nullable", "int64", 1, "2,2"), ("dict", "float", "int64", 1, "2,2"),
+            ("delta", "float", "int64", 0, "2,2"), ("plain", "float", "int64", 0, "2,2")]
+    if tier == "thorough":
+        cfgs += [("plain", "float", "int64", 1, "1,2,1"), ("plain", "nullable", "int64", 1, "2,1,2"),
+                 ("dict", "nullable", "int64", 1, "2,2"), ("dict", "float", "int64", 1, "3,2"),
+                 ("plain", "float", "double", 1, "3,3"), ("delta", "float", "int64", 0, "3,1")]
+    out = []
+    for enc, outk, phys, opt, rows in cfgs:
+        j = ch(prop, "vf/pyshim/h_v2.py", "h_read_col_v2", t,
+               ["core.read_col", "core.read_data_page_v2 (flat column)", "converted_types.converts_inplace"],
+               shape=dict(encoding=enc, output=outk, physical=phys, optional=opt, page_rows=rows),
+               env=dict(VERIF_ENC=enc, VERIF_OUT=outk, VERIF_PHYS=phys, VERIF_OPTIONAL=opt, VERIF_PAGE_ROWS=rows))
+        j["name"] += "[%s,%s,%s,opt=%d,pages=%s]" % (enc, outk, phys, opt, rows)
+        out.append(j)
+    return out
+
+
 def page_jobs(prop, tier):
     """real core.read_data_page / read_def (v1) call-site patterns (vf/pyshim/h_page.py)"""
     t = 200 if tier == "quick" else 800
